@@ -392,6 +392,42 @@ def stale_response(u2: int, m2: int, vA: bool, vB: bool, sA: bool, sB: bool, gap
     return nsucc == 0 and owner.completed == 0
 
 
+def response_after_failure(first_ok: bool, second_ok: bool, n2: int, s: int) -> bool:
+    """keyboard-interactive: once an attempt has been answered (FAILURE, or
+    SUCCESS) its challenge is spent - a further INFO_RESPONSE without a new
+    USERAUTH_REQUEST is not validated (no extra guesses) and never
+    authenticates; the connection ends with a protocol error."""
+    loop = MiniLoop()
+    owner = Owner(loop, {'alice': first_ok}, {})
+    saved = C.asyncio
+    C.asyncio = AsyncioShim(loop)
+    try:
+        conn, out = _server(loop, owner)
+        deliver(conn, _kbd('alice'))
+        loop.run(10)
+        if 60 not in out.sent:
+            return False
+        deliver(conn, frame(Byte(61) + UInt32(1) + String('guess-1')))
+        loop.run(20 + s)
+        if first_ok:
+            return conn._auth_complete and out.sent.count(52) == 1
+        if conn._auth_complete or out.sent.count(51) != 1:
+            return False
+        calls = len(owner.calls)
+        owner.verdicts['alice'] = second_ok          # the next guess would be right
+        deliver(conn, frame(Byte(61) + UInt32(conc(n2, 0, 2)) + String('guess-2') * conc(n2, 0, 2)))
+        loop.run(20 + s)
+    finally:
+        C.asyncio = saved
+    if loop.exceptions or out.internal:
+        return False
+    if conn._auth_complete or out.sent.count(52) != 0:
+        return False
+    if len(owner.calls) != calls:
+        return False                       # the stale answer was handed to the validator: a free extra guess
+    return len(out.closed) == 1 and isinstance(out.closed[0], ProtocolError)
+
+
 class ModelCert:
     pass
 
@@ -532,6 +568,9 @@ OBLIGATIONS = [
                   'asyncssh.public_key.SSHOpenSSHCertificate.validate'],
        bounds='2 successive publickey requests with OpenSSH certificates: CA in {authorized_keys CA (with/without principals="ops"), application-trusted CA, '
               'unknown CA}, 4 (thorough 5) principal lists each, first request for alice (thorough alice/bob), second for alice/bob, each certificate valid or expired (window arithmetic is C04.cert_validate), second of user or host type'),
+    Ob('response_after_failure', response_after_failure, sym=dict(first_ok=B, second_ok=B, n2=R(0, 2), s=R(0, 2)), timeout=200,
+       functions=[C.SSHConnection.send_userauth_failure, C.SSHConnection.process_packet, AU._ServerKbdIntAuth._process_info_response],
+       bounds='one keyboard-interactive attempt answered wrongly/rightly, then a second INFO_RESPONSE with 0..2 answers and no new request'),
     Ob('pk_binding', pk_binding,
        sym=dict(flaw=R(0, 8), probe_first=B, trailing=B), timeout=150,
        functions=[AU._ServerPublicKeyAuth._start, C.SSHServerConnection.validate_public_key,
